@@ -1,6 +1,6 @@
 #!/bin/bash
 # Offline setup after a fresh restore: warm the Go build cache and pre-build every check binary.
-export GOFLAGS=-mod=mod GOPROXY=off GOSUMDB=off GOTOOLCHAIN=local
+. "$(dirname "$(realpath "$0")")/mc/goenv.sh"
 ROOT=$(dirname "$(realpath "$0")")
 cd "$ROOT/mc" || exit 1
 mkdir -p "$ROOT/.bin" "$ROOT/evidence" "$ROOT/replays"
